@@ -841,13 +841,24 @@ def enumerate_orderings(res, n, depth, rng, deadline, with_gc=False):
 def run(tier, seed):
     """a run against a scratch copy of the repository (VERIF_REPO, mutation testing) regenerates the shared
     Extracted/SyncRefProbes.lean from that copy; put the table of the real tree back afterwards"""
-    saved = open(EXTRACTED).read() if C._ALT and os.path.exists(EXTRACTED) else None
+    global _SAVED
+    _SAVED = open(EXTRACTED).read() if C._ALT and os.path.exists(EXTRACTED) else None
     try:
         return run_(tier, seed)
     finally:
-        if saved is not None:
-            with C.Lock("lake"):
-                C.write_if_changed(EXTRACTED, saved)
+        restore_extracted()
+
+
+_SAVED = None
+
+
+def restore_extracted():
+    """(scratch-copy runs only) the shared table describes the real tree again as soon as the proofs were checked"""
+    global _SAVED
+    if _SAVED is not None:
+        with C.Lock("lake"):
+            C.write_if_changed(EXTRACTED, _SAVED)
+        _SAVED = None
 
 
 def run_(tier, seed):
@@ -882,6 +893,7 @@ def run_(tier, seed):
     phase_probe(res)
     if not C.phase_proofs(res, PROP, THEOREMS):
         C.lake_build(["driver"])      # the model runs below need the driver even when a theorem no longer checks
+    restore_extracted()
     shape = source_shape()
     res.obligation("source shape: non-forced push refspec, forced fetch into tracking ref, merge -s ours", not shape, "extraction")
     if shape:
@@ -915,9 +927,12 @@ def run_(tier, seed):
         t0 = time.time()
         dg = int(os.environ.get("VERIF_C10_DEPTHGC", str(max(3, d2 - 1))))
         okg, stg = enumerate_orderings(res, 2, dg, rng, t0 + budget * 0.35, with_gc=True)
-        ok3, st2 = enumerate_orderings(res, 2, d2, rng, t0 + budget * 0.7)
-        ok3 = ok3 and okg
-        enum = {"2 clones with gc/pack-refs": dict(stg, depth=dg), "2 clones": dict(st2, depth=d2)}
+        enum = {"2 clones with gc/pack-refs": dict(stg, depth=dg)}
+        ok3 = okg
+        if d2 > dg:       # the orderings without maintenance are among those with it up to depth dg
+            ok3, st2 = enumerate_orderings(res, 2, d2, rng, t0 + budget * 0.7)
+            ok3 = ok3 and okg
+            enum["2 clones"] = dict(st2, depth=d2)
         ok4 = True
         if d3:
             ok4, st3 = enumerate_orderings(res, 3, d3, rng, t0 + budget)
